@@ -9,7 +9,7 @@ from trie.constants import BLANK_NODE_HASH
 
 from .hexcommon import lookup_keys, resolve_key, resolve_val
 from .ref.mpt import BLANK_ROOT, RefTrie
-from .util import Abort, Raised, cm_enter, cm_exit, expect, expect_eq, impl, nibbles_of
+from .util import Abort, Raised, abort_exception, cm_enter, cm_exit, expect, expect_eq, impl, nibbles_of
 
 
 def apply_simple(trie, model, op, allowed=()):
@@ -243,7 +243,7 @@ def run_history(case, checks, info, state=None, ops=None, final_sweep=True):
         if aborted:
             facts["aborts"] += 1
             info.label("batch-aborted")
-            cm_exit("squash_changes-exit", cm, Abort("injected"))
+            cm_exit("squash_changes-exit", cm, abort_exception(end))
         else:
             cm_exit("squash_changes-exit", cm)
             model.clear()
@@ -277,7 +277,7 @@ def play(trie, model, ops):
         if end == len(inner):
             aborted = True
         if aborted:
-            cm_exit("squash_changes-exit", cm, Abort("injected"))
+            cm_exit("squash_changes-exit", cm, abort_exception(end))
         else:
             cm_exit("squash_changes-exit", cm)
             model.clear()
